@@ -199,6 +199,43 @@ def run(chk):
     other_s = [n for n in ast.walk(SL) if isinstance(n, (ast.Assign, ast.AugAssign)) and u(n.targets[0] if isinstance(n, ast.Assign) else n.target) == svar and n not in adv]
     chk.ob("O2.3", "s not written elsewhere inside the sub-task loop", not other_s, other_s[0] if other_s else SL, "")
 
+    # ---- O2.7 completing clients / widest element ----------------------------------------------------------------------------------------------------
+    chk.rule("O2.7", "the clients recorded on a join point as executing the completing task (or an `any` task) are the PHYSICAL row indices of exactly those sub-tasks; the row count is the "
+             "maximum client count over all schedule elements (at least 1)", 4,
+             "completed-by waits for the wrong clients (over-committed element), or the matrix has fewer rows than the widest element")
+    rec = []
+    for n in ast.walk(CL):
+        if isinstance(n, ast.Call) and last_attr(n.func) == "append" and isinstance(n.func, ast.Attribute) and isinstance(n.func.value, ast.Name) and n.func.value.id != matrix and n.args:
+            rec.append(n)
+    jpc = [n for n in ast.walk(L) if isinstance(n, ast.Call) and last_attr(n.func) == "JoinPoint"]
+    jpa = [u(a) for a in jpc[0].args[1:3]] if jpc else []
+    physd = None
+    for n in ast.walk(CL):
+        if isinstance(n, ast.Assign) and isinstance(n.value, ast.BinOp) and isinstance(n.value.op, ast.Mod) and isinstance(n.targets[0], ast.Name):
+            physd = n.targets[0].id
+    flags = {}
+    for r_ in rec:
+        gs_ = guards(r_, stop=CL)
+        flag = [u(t) for t, pol in gs_ if pol]
+        flags[u(r_.func.value)] = (flag, u(r_.args[0]))
+    ok = len(jpa) == 2 and jpa[0] in flags and jpa[1] in flags and flags[jpa[0]][0] == [f"{sub}.completes_parent"] and f"{sub}.any_completes_parent" in flags[jpa[1]][0] \
+        and flags[jpa[0]][1] == physd and flags[jpa[1]][1] == physd
+    chk.ob("O2.7", "completing / any-completing clients recorded by physical index under the sub-task's own flag", ok, rec[0] if rec else CL, f"{flags}")
+    for lst in jpa:
+        ini = [n for n in L.body if isinstance(n, ast.Assign) and u(n.targets[0]) == lst and isinstance(n.value, ast.List) and not n.value.elts]
+        chk.ob("O2.7", f"{lst} starts empty for each schedule element", len(ini) == 1 and L.body.index(ini[0]) < L.body.index(SL), ini[0] if ini else L, "")
+    AL2 = drv.cls("Allocator")
+    clf = drv.methods(AL2).get("clients")
+    ok = False
+    if clf is not None:
+        lp_ = [n for n in walk_body(clf) if isinstance(n, ast.For) and is_self_attr(n.iter, "schedule")]
+        mx_ = [n for n in walk_body(clf) if isinstance(n, ast.Call) and dotted(n.func) == "max"]
+        if lp_ and mx_:
+            ok = any(u(a) == f"{lp_[0].target.id}.clients" for a in mx_[0].args) and not guards(mx_[0], stop=lp_[0])
+        elif mx_:
+            ok = "self.schedule" in u(mx_[0]) and ".clients" in u(mx_[0])
+    chk.ob("O2.7", "row count == max client count over all schedule elements", ok, clf if clf is not None else AL2, "")
+
     # ---- O2.4 worker partition tiles ---------------------------------------------------------------------------------------------------------------------
     chk.rule("O2.4", "worker assignment: client ids come from range(c, c + k) with c += k (same k) afterwards, c starts at 0 and is written nowhere else; per-host share == "
              "min(ceil(n / hosts), remaining) and remaining -= that share; worker slots per host == its core count; per-host split is round-robin count[i % slots] += 1", 8,
@@ -333,6 +370,8 @@ VARIANTS = [
     V("worker id incremented outside the guard", "break", _D, "                    self.workers.append(worker)\n                    worker_id += 1", "                    self.workers.append(worker)\n                worker_id += 1", "O2.5"),
     V("seed m3: parallel client sum cached", "break", _T, "        if self._clients is not None:\n            return self._clients\n        else:\n            num_clients = 0\n            for task in self.tasks:\n                num_clients += task.clients\n            return num_clients",
       "        return self._clients", "O2.6"),
+    V("completing clients recorded by logical index", "break", _D, "                        clients_executing_completing_task.append(physical_client_index)", "                        clients_executing_completing_task.append(client_index)", "O2.7"),
+    V("row count from the first element", "break", _D, "        for task in self.schedule:\n            max_clients = max(max_clients, task.clients)\n        return max_clients", "        for task in self.schedule[:1]:\n            max_clients = max(max_clients, task.clients)\n        return max_clients", "O2.7"),
     # preserving
     V("physical index via helper local", "keep", _D, "                    physical_client_index = client_index % max_clients", "                    rows = max_clients\n                    physical_client_index = client_index % rows"),
     V("entries emitted after the client loop", "keep", _D,
